@@ -354,6 +354,7 @@ def invalidations(d, rng):
         mut("key-note-high", key_mut("128"))
         mut("key-note-negative", key_mut("-1"))
         mut("key-note-name-unknown", key_mut(rng.choice(["H3", "E#1", "c9", "C-3", "G#8", "Cb1", "C 1", "c-0"])))
+        mut("key-note-name-minus-zero", key_mut(rng.choice(["c-0", "F#-0", "a-0,3", "G-0,0", "d#-0"])))
         # names with a multi-digit octave: none of the 128 names (uint8 wrap-around would map some of them into range)
         mut("key-note-name-long-octave", key_mut(rng.choice(["c20", "c03", "C-00", "a41", "c62", "c-22", "C21", "c128", "d#10"])))
         mut("key-note-far", key_mut(str(rng.choice([256, 300, 511, 65536 + 60]))))
